@@ -104,7 +104,7 @@ def run(ctx):
     sep_pool = [x.decode() for x in SEPS]
     trail_pool = ["x", "GET /a", "TYPE @t", "}", "]", "200", "\"a\"", "{}", "URL /x\n  Path\n", "@t", ",", ":", "e1", "-",
                   "x\n", "x\nGET /a", "x\r\n\r\ny", "x y\n", "x//y", "x/*c*/", "x #c\n", "xyz\n{}", "]\n", "}\n\n"]
-    slash_pool = ["/cats/{id}", "/abc/", "/x", "/cats\nGET /dogs"]      # (// x or /* x */ on a following line still annotates a value that admits annotations)
+    slash_pool = ["/cats/{id}", "/abc/", "/x", "/cats\nGET /dogs", "/", "/", "/\n"]      # (// x or /* x */ on a following line still annotates a value that admits annotations)
     sl, smeta = [], []
     for _ in range(60 if quick else 3000):
         w = J.rand_rule_schema(rng, rng.randint(0, 3))
@@ -120,10 +120,21 @@ def run(ctx):
             if annot_tail is not None and not pure_object and "\n" not in sep and "\r" not in sep:
                 continue          # a note runs to the end of the line: only a line break ends the schema
             t = rng.choice(trail_pool + (slash_pool if ("\n" in sep or "\r" in sep) and annot_tail is None else []))
+            body = stext.strip(" \t\r\n")
+            if body.startswith("[") and body.endswith("]") and body[1:-1].strip(" \t\r\n") != "" and ("\n" in sep or "\r" in sep) and rng.random() < 0.5:
+                # no annotation can follow a top-level value that ends with a non-empty array: on a following line `//` and `/*` are foreign text, also behind blanks
+                t = rng.choice(["", " ", "  ", "\t", "    "]) + rng.choice(["// x", "/* x */", "// {min: 1}", "/* {a: 1} */ y", "//", "/*"])
             if pure_object and "\n" not in sep and "\r" not in sep and t[:1] in "-#/":
                 continue          # after the closing bracket of an inline annotation object a note, a comment or another annotation may still follow on the line
             sl.append(json.dumps({"schema": stext + sep + t, "ops": [["len"]]}))
             smeta.append((stext, sep, t))
+    # fixed: values after which no annotation can follow (they end with a non-empty array), then a line break, blanks and an annotation opener
+    for stext in ("[1, 2]", "[\n  1,\n  2\n]", '[ // {minItems: 1}\n  "a"\n]', "[[1], [2]]", '{"ids": [1]}', '{"a": {"b": [true]}}', "[@t]", '[{"k": 1}]'):
+        for sep in ("\n", "\r\n", "\n\n", " \n", "\r"):
+            for ind in ("", " ", "\t ", "    "):
+                for t in ("// x", "/* x */", "// {min: 1}\n", "/* {a: 1} */ y", "//", "/*", "/x"):
+                    sl.append(json.dumps({"schema": stext + sep + ind + t, "ops": [["len"]]}))
+                    smeta.append((stext, sep, ind + t))
     for (stext, sep, t), o in zip(smeta, vc.impl_parallel(["schema"], sl)):
         r = json.loads(o)[0]
         ctx.evaluations += 1
@@ -139,7 +150,7 @@ def run(ctx):
             sep = rng.choice(sep_pool)
             if "//" in etext.split("\n")[-1] and "\n" not in sep and "\r" not in sep:
                 continue
-            t = rng.choice(trail_pool + (["/cats/{id}", "/abc/", "/x"] if ("\n" in sep or "\r" in sep) and "//" not in etext.split("\n")[-1] else []))
+            t = rng.choice(trail_pool + (["/cats/{id}", "/abc/", "/x", "/", "/"] if ("\n" in sep or "\r" in sep) and "//" not in etext.split("\n")[-1] else []))
             el.append(json.dumps({"text": etext + sep + t}))
             emeta.append((etext, sep, t))
     for (etext, sep, t), o in zip(emeta, vc.impl_parallel(["enumrule"], el)):
@@ -150,7 +161,9 @@ def run(ctx):
             info = {"kind": "enum", "S": etext, "sep": sep, "trail": t, "implementation": r, "expected": want, "direct": sep == ""}
             ctx.report("enum Len(%r + %r + %r) = %s, the enum rule ends at %s" % (etext[-50:], sep, t[:15], r, want), "enumlen:" + etext + sep + t, info, case=info)
     # "Len returns an error when the text does not begin with a lexically complete schema": nothing-texts (empty, blanks, only a comment)
-    nothing = ["", " ", "\n", " \t\r\n ", "# only a comment", "# c\n", "  # c\n  ", "### block ###", "### block ###\n"]
+    nothing = ["", " ", "\n", " \t\r\n ", "# only a comment", "# c\n", "  # c\n  ", "### block ###", "### block ###\n",
+               # annotations without a value: Check says 202 Empty schema (a note) or 803 (rules without an example)
+               "// x", "/* x */", "// x\n", " \n// type", "# c\n// x", "/* x */ /* y */", "/* x */ // y", "// {min: 1}", "/* {min: 1} */\n", "// x\n\n"]
     for t, o in zip(nothing, vc.impl(["schema"], [json.dumps({"schema": t, "ops": [["len"]]}) for t in nothing])):
         r = json.loads(o)[0]
         ctx.evaluations += 1
